@@ -37,6 +37,34 @@ pub fn corpus(thorough: bool) -> Vec<Job> {
 		for s in &seeds {
 			jobs.push(Job { input: s.clone(), src: f, origin: "seed" });
 		}
+		if f == F::Yaml {
+			// multi-byte characters across the parser's / BufReader's buffer edges, plenty of input after them
+			for boundary in [8192usize, 16384, 24576] {
+				for ch in ["é", "€", "😀"] {
+					for align in 0..ch.len() {
+						let mut s = format!("k: \"{}", "p".repeat(boundary - 60 + align));
+						for _ in 0..40 {
+							s.push_str(ch);
+						}
+						s.push_str(&"q".repeat(20_000));
+						s.push_str("\"\n---\n- next\n");
+						jobs.push(Job { input: s.into_bytes(), src: f, origin: "buffer-straddle" });
+					}
+				}
+			}
+		}
+		if f == F::Toml {
+			// sizes around the 2 MiB cut-off of TOML detection from a reader (the YAML trial gives up at line 2)
+			let sizes: &[usize] = if thorough { &[1_999_999, 2_000_000, 2_000_001, 2_050_000, 2_097_150, 2_097_151] } else { &[2_000_001, 2_097_151] };
+			for &size in sizes {
+				let mut s = String::from("[t]\n# c: d\nk = \"");
+				let pad = size - s.len() - 2;
+				s.push_str(&"z".repeat(pad));
+				s.push_str("\"\n");
+				assert!(s.len() == size);
+				jobs.push(Job { input: s.into_bytes(), src: f, origin: "near-2MiB" });
+			}
+		}
 		let max_edit = if thorough { 400 } else { 48 };
 		let mut edits = vec![];
 		for s in &seeds {
@@ -130,10 +158,10 @@ pub fn classify(input: &[u8], from: Option<F>, to: F, s: &Outcome, r: &Outcome) 
 
 fn check_one(t: &mut Tally, input: &[u8], from: Option<F>, to: F, d: usize, all_len: usize, s: &Outcome, thorough: bool) {
 	let marks = newline_marks(input);
-	let chunks: &[usize] = if input.len() <= 2 { &[0] } else if thorough { &[0, 1, 2, 3, 7] } else { &[0, 1] };
+	let chunks: &[usize] = if input.len() <= 2 { &[0] } else if input.len() > 100_000 { &[0, 65536] } else if input.len() > 4096 { &[0, 1, 4093] } else if thorough { &[0, 1, 2, 3, 7] } else { &[0, 1] };
 	let mut cache: Vec<(Outcome, String)> = vec![];
 	for &chunk in chunks {
-		let d_eff = if chunk == 0 && input.len() <= all_len { 64 } else { d };
+		let d_eff = if chunk == 0 && input.len() <= all_len { 64 } else if input.len() > 4096 { 0 } else { d };
 		let pol = policy(chunk, true, false, &marks);
 		let st = explore(d_eff, 6000, |env| {
 			let r = run_reader(SchedReader::new(input, env, pol.clone()), from, to);
@@ -181,7 +209,7 @@ pub fn run(ctx: &Ctx) -> CheckOutput {
 		let froms: &[Option<F>] = if job.origin == "bytes" { &[None] } else { &[Some(job.src), None] };
 		for &from in froms {
 			let s_json = slice(input, from, F::Json);
-			let targets: Vec<F> = if s_json.ok { F::ALL.to_vec() } else { vec![F::Json] };
+			let targets: Vec<F> = if s_json.ok && input.len() <= 100_000 { F::ALL.to_vec() } else { vec![F::Json] };
 			for to in targets {
 				let s = if to == F::Json { s_json.clone() } else { slice(input, from, to) };
 				check_one(t, input, from, to, d, all_len, &s, thorough);
